@@ -47,6 +47,8 @@ namespace {
       const ipr::Expr& lit(int k) { return *lex.make_literal(lex.int_type(), k ? u8"1" : u8"0"); }
    };
 
+   std::vector<int> current_history;
+
    using OpFn = void (*)(World&);
    struct OpDef { const char* name; OpFn run; };
 
@@ -283,6 +285,40 @@ namespace {
            look(*w.tu);
            if (w.module) { look(w.module->iface); for (auto& mu : static_cast<const ipr::Module&>(*w.module).implementation_units()) look(mu); }
         } },
+      { "probe-past-the-end", [](World& w) {
+           // "no operation reads or writes memory outside live objects": the element at size() (and beyond) of a list-backed
+           // sequence does not exist; asking for it must be refused, not answered with a reference past the last member
+           auto* m = w.lex.make_mapping(*w.global, ipr::Mapping_level{ 0 });
+           for (int i = 0; i < 3; ++i) m->param(w.fresh(), w.lex.int_type());
+           auto* c = w.lex.make_class(*w.global);
+           c->declare_base(w.lex.int_type()); c->declare_base(w.lex.char_type());
+           auto* b = w.lex.make_block(*w.global);
+           b->new_handler(w.fresh(), w.lex.int_type());
+           auto* e = w.lex.make_enum(*w.global, ipr::Enum::Kind::Legacy);
+           e->add_member(w.fresh()); e->add_member(w.fresh());
+           auto* l = w.lex.make_expr_list(); l->push_back(&w.lit(1));
+           if (not w.module) w.module = std::make_unique<ipr::impl::Module>(w.lex);
+           w.module->make_unit();
+           auto probe = [](const char* what, const auto& seq) {
+              const std::size_t n = seq.size();
+              for (std::size_t idx : { n, n + 1, n + 7 }) {
+                 try {
+                    const void* p = &*seq.position(idx);
+                    rep.violation(std::string("C19:access-outside-live-objects:") + what, 1, std::string("position ") + std::to_string(idx) + " of the " + what + " sequence of size " + std::to_string(n)
+                                  + " is answered with a reference (" + (p == nullptr ? "null" : "not a member") + ") instead of being refused",
+                                  vf::JObj{}.str("pass", "C19").raw("ops", vf::jarr(std::vector<long long>(current_history.begin(), current_history.end()))).done());
+                 }
+                 catch (const std::logic_error&) { }
+              }
+           };
+           probe("parameters", static_cast<const ipr::Parameter_list&>(m->inputs).elements());
+           probe("bases", static_cast<const ipr::Class&>(*c).bases());
+           probe("handlers", static_cast<const ipr::Block&>(*b).handlers());
+           probe("enumerators", static_cast<const ipr::Enum&>(*e).members());
+           probe("expression-list", static_cast<const ipr::Expr_list&>(*l).operand());
+           probe("module-units", static_cast<const ipr::Module&>(*w.module).implementation_units());
+           probe("global-scope", static_cast<const ipr::Region&>(*w.global).bindings().elements());
+        } },
       { "print", [](World& w) {
            std::ostringstream os;
            ipr::Printer pp{ w.lex, os };
@@ -323,7 +359,6 @@ namespace {
 
    std::vector<long long> as_ll(const std::vector<int>& h) { return { h.begin(), h.end() }; }
 
-   std::vector<int> current_history;
    void describe_current(char* buf, std::size_t n)
    {
       std::string s = "\"pass\":\"C19\",\"ops\":[";
